@@ -286,6 +286,12 @@ class Effects:
             return self._call_alias(fi, e, state)
         return E
 
+    MEMOISERS = ('functools.lru_cache', 'functools.cache')
+
+    def is_memoised(self, g):
+        return any(e.kind == 'decorator' and e.dst in self.MEMOISERS
+                   for e in self.cg.out(g))
+
     def _callee_infos(self, fi, call):
         """[(FuncInfo, precision)] and [(ext name, precision)] for a call."""
         funcs, exts = [], []
@@ -386,6 +392,11 @@ class Effects:
             gs = self.summ.get(g.fq)
             if gs is None:
                 continue
+            if self.is_memoised(g):
+                # the same object is handed to every caller
+                tok = frozenset(['@G:%s:<cached result of %s>' % (
+                    g.module.rel, g.qualname)])
+                res = _u(res, (tok, tok))
             m = self._bind_args(g, call, self._bound_self(fi, call, g))
             for prm in gs.returns_alias:
                 for a in m.get(prm, []):
